@@ -12,6 +12,7 @@ import (
 var registry = map[string]func(*core.Run){
 	"C01": checks.C01,
 	"C02": checks.C02,
+	"C03": checks.C03,
 	"C04": checks.C04,
 	"C09": checks.C09,
 	"C10": checks.C10,
